@@ -42,6 +42,38 @@ def plans(draw, h2):
 
 
 @st.composite
+def h2_multi_connection_scenarios(draw):
+    """Several HTTP/2 connections (one per origin) carrying overlapping exchanges; well-behaved network."""
+    sc = draw(scenarios(kinds=["direct-h2", "direct-h2", "prior-h2", "tunnel-h2"], max_callers=5, limits=(3, 3, 4)))
+    sc["n_origins"] = draw(st.sampled_from([2, 2, 3]))
+    k = 0
+    for c in sc["callers"]:
+        for step in c["program"]:
+            step["origin"] = k % sc["n_origins"]
+            k += 1
+            if step["mode"] == "hold":
+                step["mode"] = "read_all"
+    sc["faults"] = []
+    sc["cancel"] = None
+    sc.pop("h2_script", None)
+    return sc
+
+
+@st.composite
+def goaway_scenarios(draw):
+    """HTTP/2 only, small limits, always a (truthful) GOAWAY from the peer and at least one caller that holds its response open."""
+    sc = draw(scenarios(kinds=["direct-h2", "direct-h2", "prior-h2", "tunnel-h2", "socks-auth-tls-h2"], max_callers=4, limits=(1, 1, 2)))
+    act = draw(st.sampled_from([{"goaway": {"last": "below"}}, {"goaway": {"last": "below"}}, {"goaway": {"last": "equal"}}, {"goaway": {"last": "zero"}}]))
+    sc["h2_script"] = [{"when": {"event": draw(st.sampled_from(["headers", "headers", "data", "request_complete", "response_sent"])), "n": draw(st.integers(0, 3))}, "do": [act]}]
+    sc["callers"][0]["program"][0]["mode"] = "hold"
+    sc["n_origins"] = min(sc["n_origins"], 2)
+    for c in sc["callers"]:
+        for step in c["program"]:
+            step["origin"] = step["origin"] % sc["n_origins"]
+    return sc
+
+
+@st.composite
 def scenarios(draw, kinds=None, max_callers=4, limits=(1, 1, 2, 2, 3)):
     kind = draw(st.sampled_from(kinds or KIND_LIST))
     h2 = is_h2(kind)
@@ -70,6 +102,14 @@ def scenarios(draw, kinds=None, max_callers=4, limits=(1, 1, 2, 2, 3)):
           "segs": draw(st.lists(st.sampled_from([0, 0, 1, 2, 7, 50, 1000]), max_size=5)),
           "dsegs": draw(st.lists(st.sampled_from([0, 0, 0, 1, 20, 60, 300, 5000]), max_size=4)),
           "faults": [], "cancel": None, "server_closes": draw(st.sampled_from([0, 0, 0, 1, 2]))}
+    if h2 and draw(st.integers(0, 2)) == 0:
+        # scripted HTTP/2 peer actions (truthful GOAWAYs, resets, PING, raising the stream limit)
+        script = []
+        for _ in range(draw(st.integers(1, 2))):
+            act = draw(st.sampled_from([{"goaway": {"last": "below"}}, {"goaway": {"last": "equal"}}, {"goaway": {"last": "zero"}}, {"goaway": {"last": "below", "close": True}},
+                                        {"rst": {"sid": "last"}}, {"rst": {"sid": "first"}}, {"ping": True}, {"settings": {"3": 100}}]))
+            script.append({"when": {"event": draw(st.sampled_from(["headers", "data", "request_complete", "response_sent"])), "n": draw(st.integers(0, 4))}, "do": [act]})
+        sc["h2_script"] = script
     for _ in range(draw(st.sampled_from([0, 0, 1, 1, 2]))):
         sc["faults"].append({"at": draw(st.integers(0, 60)), "fault": draw(st.sampled_from(["error", "error", "timeout", "eof"]))})
     if draw(st.integers(0, 2)) == 0:
@@ -83,7 +123,8 @@ def build(sc):
     extra = {"max_connections": maxc}
     if sc.get("max_keepalive") is not None:
         extra["max_keepalive_connections"] = sc["max_keepalive"]
-    pool_cfg, cfg, scheme = topo(sc["kind"], plans=sc["plans"], pool_extra=extra, hosts=HOSTS)
+    h2cfg = {"script": [dict(x) for x in sc["h2_script"]]} if sc.get("h2_script") else None
+    pool_cfg, cfg, scheme = topo(sc["kind"], plans=sc["plans"], pool_extra=extra, hosts=HOSTS, h2=h2cfg)
     world = World(peer_factory=cfg.peer_factory, faults=[dict(f) for f in sc["faults"]])
     callers = []
     for ci, c in enumerate(sc["callers"]):
@@ -145,7 +186,13 @@ class Monitor:
             self.violations.append(("pool-overshoot", f"{where}: pool holds {n} connections, max_connections={self.maxc}: "
                                     f"{[repr(c) for c in conns]}"))
         open_pipes = [p for p in world.pipes if p.open]
-        if len(open_pipes) > self.maxc:
+        if where == "at quiescence" and len(open_pipes) > self.maxc and len(self.violations) < 3:
+            # at quiescence nothing is "being closed" any more: an evicted connection's stream is closed by then, so every open stream counts
+            self.max_pipes = max(self.max_pipes, len(open_pipes))
+            self.violations.append(("streams-overshoot", f"at quiescence {len(open_pipes)} network streams are open on behalf of the pool (pipes "
+                                    f"{[p.id for p in open_pipes]} to {[p.target for p in open_pipes]}), max_connections={self.maxc}; pool: {pool!r} "
+                                    f"{[repr(c) for c in pool.connections]}"))
+        elif len(open_pipes) > self.maxc:
             # excuse pipes of connections that have already left the pool and carry no request bytes after that moment
             excused = set()
             for cid, seq_left in self.left.items():
@@ -310,6 +357,8 @@ def judge(sc, run, world, callers, mon, lost, q_stats):
         tags.append("fault-fired")
     if any(c.cancelled for c in callers):
         tags.append("cancelled")
+    if sc.get("h2_script"):
+        tags.append("h2-peer-actions")
     if q_stats["waited"]:
         tags.append("queued")
     if multiplexed:
